@@ -126,6 +126,32 @@ def main():
         ctx.inconclusive('internal error: %r' % (e,))
         traceback.print_exc()
     chk = ctx.chk
+    # panic / bounds / unwinding obligations recorded by an executor but not yet turned into queries (the check was
+    # interrupted, e.g. because every path of a run ended in a panic): decide them now -- a reachable panic under the
+    # stated preconditions is a violation in its own right
+    try:
+        from mirsym import sym as _sym
+        import z3 as _z3
+        pending = []
+        for ex in _sym.ALL_EXECUTORS:
+            for ob in ex.obligations[ex.harvested:]:
+                pending.append(ob)
+            chk.functions.update(ex.encoded)
+            ex.harvested = len(ex.obligations)
+        for i, ob in enumerate(pending[:400]):
+            chk.must_unsat('unharvested %s #%d at %s: %s' % (ob.kind, i, ob.where, ob.msg[:80]), ob.formula(), group='late-no-panic')
+        if pending:
+            chk.discharge()
+            for o in chk.failed():
+                if o.group == 'late-no-panic' and not o.handled:
+                    o.handled = True
+                    ctx.violation('panic:' + o.name.split(' at ')[-1][:80], 'a panic / out-of-range access is reachable under the stated preconditions: ' + o.name,
+                                  {'obligation': o.name, 'model': {k_: (hex(v) if isinstance(v, int) and not isinstance(v, bool) else v) for k_, v in (o.model or {}).items()}})
+            if chk.violations:
+                # the interruption is explained by the violation
+                chk.inconclusive[:] = [x for x in chk.inconclusive if 'PathDead' not in x]
+    except Exception:
+        traceback.print_exc()
     # anything left undecided or unexplained is inconclusive
     for o in chk.undecided():
         ctx.inconclusive('solver gave %s for %s (cap %ds)' % (o.result, o.name, chk.cap))
